@@ -19,6 +19,10 @@ PROGRAMS = {
     # output that contains CR LF, CR and a trailing blank inside the script text (round 7: C19-8, line ends "normalised" before writing)
     "crlf": 'line := "Content-Type: text/plain\\r\\n"\nprint(line + "x\\r", len(line))\nraw := `a \r\nb`\nprint(raw)\n',
     "batcherr": 'x := 1\nswitch x {\ncase 1:\n\tbreak\n}\n',      # accepted for bash, conversion error for batch
+    # every counter of the pipeline is used several times: helper variables, loops, functions, slices, multi-assignment temporaries, if
+    # labels, helper routines, an import (round 9: C19-A, a counter on the transpiler object that is not reset between the targets of one
+    # invocation - the second target's file differed from the library's result)
+    "rich": 'import "strings"\nfunc two(a int, b string) (int, string) {\n\tx, y := a + 1, b + "!"\n\tx, y = x * 2, y + y\n\treturn x, y\n}\np, q := two(1, "a")\np, q = two(p, q)\nxs := []int{1, 2}\nys := []int{0}\nn := copy(ys, xs)\nxs[3] = p\nfor i := 0; i < 2; i++ {\n\tfor j, v := range xs {\n\t\tif v > 1 && j != 0 {\n\t\t\tcontinue\n\t\t} else if v == 0 {\n\t\t\tbreak\n\t\t}\n\t\tprint(i, j, v)\n\t}\n}\nswitch q {\ncase "x":\n\tprint(1)\ndefault:\n\tprint(strings.Repeat(q[0:1], n), len(q), len(xs))\n}\na, b, c := 1, 2, 3\na, b, c = c, a, b\nprint(a, b, c)\n',
 }
 NAMES = ["prog.tsh", "a.b.c.tsh", "noext", "my prog.tsh", ".hidden", "x.sh", "deep/er/p.tsh", "x.bat",
          # stems that end in a character of their own extension, repeated extensions, one-letter names (round 5: C19-6)
@@ -93,9 +97,13 @@ def gen_cases(rng, n):
             setup["blockdir"] = True
         elif k < 0.50:
             kind = "odd-argument-count"
-        elif k < 0.62:
+        elif k < 0.58:
             kind = "stale-output-present"           # a longer file with the output's name is already there
             setup["stale"] = True
+        elif k < 0.68:
+            # a NEWER file of exactly the new output's size but other content is there (round 9: C19-B, "up to date" outputs left alone)
+            kind = "stale-output-present"
+            setup["stale_same_size"] = True
         # options in random order (the order of the -t options among themselves is kept meaningful: it is the write order)
         rng.shuffle(pairs)
         args = [x for p in pairs for x in p]
@@ -152,6 +160,23 @@ def run_case(b, case, lib):
                     q = os.path.join(d, o, stem + "." + e)
                     if not os.path.exists(q):
                         open(q, "wb").write(b"# stale output of an earlier run\n" * 400)
+        if case["setup"].get("stale_same_size"):
+            base = os.path.basename(case["name"])
+            i = base.rfind(".")
+            stem = base[:i] if i >= 0 else base
+            for e, t in (("sh", "bash"), ("bat", "batch")):
+                want = lib.get((case["prog"], t), "ERR")
+                if not want.startswith("OK"):
+                    continue
+                data = bytearray(bytes.fromhex(want[2:]))
+                for j in range(len(data)):
+                    if data[j:j + 1].isalpha():
+                        data[j] = ord("Z") if data[j] != ord("Z") else ord("Y")
+                for o in ("out", ".", "out2/sub"):
+                    q = os.path.join(d, o, stem + "." + e)
+                    if not os.path.exists(q) and os.path.normpath(q) != os.path.normpath(p):
+                        open(q, "wb").write(bytes(data))
+                        os.utime(q, (4102444800, 4102444800))       # year 2100: newer than any input
         before = snapshot(d)
         real_args = [a.replace("{ABS}", d) for a in case["args"]]
         try:
